@@ -455,7 +455,13 @@ pub fn predict(model: &Model, msgs: &[Message], kinds: Option<&[Vec<UnitKind>]>,
                             out.push(PEv::Handler { id, args: wants });
                             if let Some(f) = env.fail.get(id).copied().flatten() {
                                 let (n, text) = f.number_text();
-                                out.push(PEv::Error(ErrSpec::Exact(n, text)));
+                                // a custom error is (number, text): both must arrive verbatim; a
+                                // standard error is identified by its number (its description is the
+                                // library's business)
+                                out.push(PEv::Error(match f {
+                                    FailSpec::Custom(..) => ErrSpec::Exact(n, text),
+                                    FailSpec::Std(_) => ErrSpec::OneOf(vec![n]),
+                                }));
                                 faulty = true;
                             }
                             else if d.is_query() {
